@@ -128,11 +128,9 @@ def run_shard(shard, tier) -> Stats:
     expect_descs = descs[:1] if mode == "single" else descs
     want = sorted((d["ip"], d["port"], d["id"], d["sn"], d["name"], d["type"], d["version"],
                    "AirConditioner" if d["type"] == 0xAC else "Device") for d in expect_descs)
-    if pop.bad_probes:
-        st.violation(f"{mode}: probe is not a valid discovery request", case, "valid V2 envelope", f"{pop.bad_probes} rejected probes")
-    ports = sorted(set(a[1] for a, _ in probes))
-    if ports != [6445, 20086]:
-        st.violation(f"{mode}: probe ports {ports}", case, [6445, 20086], ports)
+    # hosts only answer a probe that is a valid discovery request on their port, so an unusable probe shows up as missing
+    # devices below; extra datagrams or extra ports are not a violation
+    st.extra["probes_rejected_by_devices"] += pop.bad_probes
     if got != want:
         missing = [x for x in want if x not in got]
         extra = [x for x in got if x not in want]
